@@ -987,6 +987,84 @@ def r8(ctx):
                f"reader would still strip a trailer")
 
 
+def r11(ctx):
+    repo = ctx.repo
+    ctx.rule("C01.R11", "framing totality: the writer rejects a Variable block count only when it does not fit the count "
+                        "spec (every count the reader accepts can be written), and the reader strips the ack trailer "
+                        "under the ACK flag alone")
+    wb_ = repo.fn("UDPMessageSerializer._serialize_block")
+    ev = ConstEval(repo, wb_.module)
+    counts = [c for c in find_calls(wb_.node, "write") if c.args and spec_symbol(c.args[0]) and
+              has_eq_fact(c, ".block_type", "MsgBlockType.MBT_VARIABLE", wb_.node)]
+    ctx.require(len(counts) == 1, "C01.R11: block count write not found (see C01.R3)")
+    fmt = struct_fmt_of_prim(repo, spec_symbol(counts[0].args[0]))
+    max_val = (1 << (8 * struct.calcsize("<" + fmt))) - 1
+    cnt = counts[0].args[1]
+    cnt_names = {ap(cnt)} if ap(cnt) else set()
+    if isinstance(cnt, ast.Call) and ap(cnt.func) == "len":
+        cnt_names = set()
+    # every local that holds len(block_list)
+    for st in stores(wb_.node, into_defs=False):
+        if st.kind == "assign" and isinstance(st.value, ast.Call) and ap(st.value.func) == "len":
+            cnt_names.add(st.path)
+    n_checked = 0
+    for r in [x for x in walk(wb_.node) if isinstance(x, ast.Raise)]:
+        from ..core import conditions
+        for cond in conditions(r, wb_.node):
+            if cond.kind not in ("if", "early-exit"):
+                continue
+            names = {n.id for n in ast.walk(cond.test) if isinstance(n, ast.Name)}
+            hit = names & cnt_names
+            if not hit:
+                continue
+            name = sorted(hit)[0]
+            rejected = []
+            undecided = False
+            for n in range(0, max_val + 1):
+                v = ev.ev(cond.test, {name: n})
+                if isinstance(v, (Sym, CallVal)):
+                    undecided = True
+                    break
+                if bool(v) == cond.polarity:
+                    rejected.append(n)
+            if undecided:
+                continue   # compares with the template's own number (MBT_MULTIPLE): C01.R3
+            n_checked += 1
+            ctx.ob("C01.R11", f"_serialize_block: rejection `{norm(cond.test)}` refuses no count that fits the {fmt!r} count byte",
+                   not rejected, ctx.w(wb_, r), f"refuses representable count(s) {rejected[:3]}{'...' if len(rejected) > 3 else ''} "
+                   f"which the reader accepts")
+    ctx.stats["C01.R11.count_rejections"] = n_checked
+    # reader: everything that handles the trailer depends on the ACK flag alone
+    hf = repo.fn("UDPMessageDeserializer._parse_message_header")
+    from ..core import conditions
+    n = 0
+    for st in stores(hf.node, into_defs=False):
+        if st.kind not in ("assign", "augassign") or "." in st.path:
+            continue
+        if not has_path_fact(st.node, "has_acks", True, hf.node):
+            continue
+        # only the statements that cut the trailer off: the size bookkeeping and the data snip
+        if not (st.kind == "augassign" or (isinstance(st.value, ast.Subscript) and isinstance(st.value.slice, ast.Slice))):
+            continue
+        extra = []
+        for cond in conditions(st.node, hf.node):
+            if cond.kind == "early-exit":
+                ifst = parent(cond.test)
+                exit_branch = ifst.body if not cond.polarity else ifst.orelse
+                if isinstance(ifst, ast.If) and exit_branch and isinstance(exit_branch[-1], ast.Raise):
+                    continue
+            if cond.kind in ("while",):
+                continue
+            for e, pol in atoms(cond.test, cond.polarity):
+                if not ((ap(e) or "").endswith("has_acks") and pol):
+                    extra.append(norm(e))
+        n += 1
+        ctx.ob("C01.R11", f"_parse_message_header: `{norm(st.node)}` (trailer cut) depends on the ACK flag alone", not extra,
+               ctx.w(hf, st.node), f"also conditioned on {extra}: with the flag set the writer always emits the count byte, "
+               f"so it must always be cut off")
+    ctx.floor("C01.R11", "trailer cut statements", n, 2)
+
+
 def r9(ctx):
     """The string packer/decoder inverse idiom is also a C01 clause (value round-trip of text variables)."""
     from ..engine import RenamedCtx
@@ -1019,6 +1097,7 @@ def r10(ctx):
 
 
 def run(ctx):
+    r11(ctx)
     r10(ctx)
     r9(ctx)
     r8(ctx)
